@@ -5,7 +5,7 @@
    execution after every action; `no_err err_Cxx m` = the monitor reported no error of this property's class;
    `no_raise ls` = no request ended in an exception. *)
 From Coq Require Import ZArith List Bool.
-From CS Require RevGen.
+From CS Require RevConv RevBridge4 RevolveRun Refuted.
 From CS Require Import Actions NAdvance Multistage Exec Sched RunFacts Projections BasicInv MultistageRun AllocTotal TLBridge MixBridge.
 Import ListNotations.
 Open Scope Z_scope.
@@ -52,6 +52,16 @@ Proof.
 Qed.
 Print Assumptions C01_twolevel.
 
+(* RevolveCheckpointSchedule, class Revolve (memory only): every N, every number of RAM units, every cost vector (the disk
+   arguments are ignored by this class); budgets RAM = snapshots_in_ram, DISK = 0 *)
+Theorem C01_revolve : forall (N ram disk uf ub wd rd : Z) (k : nat), 1 <= N -> 0 <= ram -> (2 <= N -> 1 <= ram) ->
+  exists o0 m ls, run_case (PRev RevConv.KRevolve N ram disk uf ub wd rd) (RevBridge4.rev_xparams N ram) (repeat Next k) = Ok (o0, m, ls) /\ no_err err_C01 m /\ no_raise ls.
+Proof.
+  intros N ram disk uf ub wd rd k H1 H2 H3. destruct (RevolveRun.revolve_run N ram disk uf ub wd rd k H1 H2 H3) as (o0 & m & ls & E & Hm & Hl).
+  exists o0, m, ls. auto using mon_ok_no_err.
+Qed.
+Print Assumptions C01_revolve.
+
 (* MixedCheckpointSchedule: every N, every unit count, both storages, both planner paths (memoised / tabulated) *)
 Theorem C01_mixed : forall (N s : Z) (sg : storage) (tab : bool) (k : nat),
   1 <= N -> 0 <= s -> (2 <= N -> 1 <= s) -> sg = RAM \/ sg = DISK ->
@@ -61,25 +71,4 @@ Proof.
   exists o0, m, ls. auto using mon_ok_no_err.
 Qed.
 Print Assumptions C01_mixed.
-
-(* PARTIAL (Revolve): the whole converted stream of the structural converter is accepted by an executor with RAM budget cm; the bridge from the index-based converter of Model/RevConv.v is not proved yet; DiskRevolve, PeriodicDiskRevolve and HRevolve: validated model + oracle only (DESIGN.md 6) *)
-Module M_C01_revolve_structural_partial.
-Import RevGen.
-Theorem C01_revolve_structural_partial :
-  forall (N cm : Z) (fuel : nat) (opt0 : list (list Z)) (uf : Z) (ops : list RevBlk.op)
-           (prev : option RevBlk.op),
-         1 <= N ->
-         0 <= cm ->
-         (2 <= N -> 1 <= cm) ->
-         revolve fuel opt0 uf (N - 1) cm = GOk ops ->
-         exists (acts : list Actions.action) (c' : RevBlk.cst) (x' : RevBlk.xst) (lastop : RevBlk.op),
-           RevBlk.conv N 0 prev init_c ops = (acts, inl (c', Some lastop, length ops)) /\
-           RevBlk.execs N cm init_x acts = Some x' /\
-           RevBlk.r_ c' = N /\
-           RevBlk.snaps c' = [] /\
-           RevBlk.store x' = [] /\
-           RevBlk.rr x' = N /\ RevBlk.endfwd x' = true /\ RevBlk.wdeps x' = None /\ RevBlk.wics x' = None.
-Proof. exact (@RevGen.revolve_stream_ok). Qed.
-Print Assumptions C01_revolve_structural_partial.
-End M_C01_revolve_structural_partial.
 
